@@ -28,21 +28,16 @@ def mir_blocks_proof(cfg):
     eff = (cfg.find_calls(r'Storage::add_fetched_header') + cfg.find_calls(r'Peers::mark_matched_blocks_proved') +
            cfg.find_calls(r'Peers::update_blocks_request') + cfg.find_calls(r'Peers::remove_fetching_header'))
     q.witness(eff, 'effects reachable')
-    c = cfg.find_calls(r'Peer::get_blocks_proof_request')[0]
-    q.must_pass(eff, [cfg.option_edges(c)['some']], 'header / block marked fetched or proved without an outstanding blocks-proof request')
+    q.gate(eff, r'Peer::get_blocks_proof_request', 'option', 'header / block marked fetched or proved without an outstanding blocks-proof request')
     lh = cfg.find_calls(r'BlocksProofRequest::last_hash')[0]
     ne = first_call_after(cfg, r'PartialEq.*>::(ne|eq)$', lh.block)
     e = cfg.bool_edges(ne)
     bad = e['true'] if ne.callee.endswith('::ne') else e['false']
     q.must_not_reach(bad[1], eff, 'effects reachable although the response is for another last hash')
-    c = cfg.find_calls(r'BlocksProofRequest::check_block_hashes')[0]
-    q.must_pass(eff, [cfg.bool_edges(c)['true']], 'effects reachable without check_block_hashes (headers outside the request)')
+    q.gate(eff, r'BlocksProofRequest::check_block_hashes', 'bool', 'effects reachable without check_block_hashes (headers outside the request)')
     for name in ['LightClientProtocol::check_pow_for_headers', 'verify_mmr_proof']:
-        cs = cfg.find_calls(name)
-        q.must_pass(eff, [cfg.result_edges(x)['ok'] for x in cs], 'effects reachable without the Ok edge of %s' % name)
-        for x in cs:
-            q.must_not_reach(cfg.result_edges(x)['err'][1], eff, 'effects reachable after the Err edge of %s' % name)
-    for x in cfg.find_calls(r'^verify_extra_hash'):
+        q.gate(eff, name, 'result', 'effects reachable without the Ok edge of %s' % name, after_err='effects reachable after the Err edge of %s' % name)
+    for x in cfg.find_calls(r'^verify_extra_hash', required=False):
         q.must_not_reach(cfg.result_edges(x)['err'][1], eff, 'effects reachable after a failed verify_extra_hash')
     return q
 
@@ -52,21 +47,16 @@ def mir_txs_proof(cfg):
     q = mirpaths.Query(cfg)
     eff = cfg.find_calls(r'Storage::add_fetched_tx') + cfg.find_calls(r'Peers::remove_fetching_transaction')
     q.witness(eff, 'effects reachable')
-    c = cfg.find_calls(r'Peer::get_txs_proof_request')[0]
-    q.must_pass(eff, [cfg.option_edges(c)['some']], 'transaction reported fetched without an outstanding transactions-proof request')
+    q.gate(eff, r'Peer::get_txs_proof_request', 'option', 'transaction reported fetched without an outstanding transactions-proof request')
     lh = cfg.find_calls(r'TransactionsProofRequest::last_hash')[0]
     ne = first_call_after(cfg, r'PartialEq.*>::(ne|eq)$', lh.block)
     e = cfg.bool_edges(ne)
     bad = e['true'] if ne.callee.endswith('::ne') else e['false']
     q.must_not_reach(bad[1], eff, 'effects reachable although the response is for another last hash')
-    c = cfg.find_calls(r'TransactionsProofRequest::check_tx_hashes')[0]
-    q.must_pass(eff, [cfg.bool_edges(c)['true']], 'effects reachable without check_tx_hashes (transactions outside the request)')
+    q.gate(eff, r'TransactionsProofRequest::check_tx_hashes', 'bool', 'effects reachable without check_tx_hashes (transactions outside the request)')
     for name in ['LightClientProtocol::check_pow_for_headers', 'verify_mmr_proof']:
-        cs = cfg.find_calls(name)
-        q.must_pass(eff, [cfg.result_edges(x)['ok'] for x in cs], 'effects reachable without the Ok edge of %s' % name)
-        for x in cs:
-            q.must_not_reach(cfg.result_edges(x)['err'][1], eff, 'effects reachable after the Err edge of %s' % name)
-    for x in cfg.find_calls(r'verify_extra_hash'):
+        q.gate(eff, name, 'result', 'effects reachable without the Ok edge of %s' % name, after_err='effects reachable after the Err edge of %s' % name)
+    for x in cfg.find_calls(r'verify_extra_hash', required=False):
         q.must_not_reach(cfg.result_edges(x)['err'][1], eff, 'effects reachable after a failed verify_extra_hash')
     # Merkle commitment of the transactions by the header (inside the per-block loop)
     # (a must-precede query is not sound here: with all data havoc the verification loop may run zero times while the storing
